@@ -17,6 +17,17 @@ def handle (args : List String) : String :=
          !(["none", "tablename", "transaction", "transaction-bucket"].contains pmethod) then "bad-op" else
       s!"tick={msToNs t} upd={msToNs u} max={msToNs m} workers={w} chans={w} depth={d} mem={mm} routing={routing} pmethod={pmethod} buckets={b} wl={wl} rx={rx} list={list} noold={noold}"
     | _, _, _, _, _, _, _ => "bad-op"
+  | ["kinput", pmethod, n] =>
+    -- one PutRecords call per batch on the configured stream, the records' data in batch order; the Kinesis partition key
+    -- of a record is the batch's partition key, or - without a partition method - the record's own LSN (C06)
+    match n.toNat? with
+    | some n =>
+      if !(["none", "tablename", "transaction", "transaction-bucket"].contains pmethod) then "bad-op" else
+      let recs := (List.range n).flatMap fun i => [(i + 1, 0), (i + 1, 1)]
+      let data := ";".intercalate (recs.map fun (b, r) => "{\"b\":" ++ toString b ++ ",\"r\":" ++ toString r ++ "}")
+      let keys := ",".intercalate (recs.map fun (b, r) => if pmethod == "none" then toString (1000 * b + r) else "pk" ++ toString b)
+      s!"stream=verif-stream calls={n} data={hex data.toUTF8.toList} keys={keys}"
+    | none => "bad-op"
   | ["s3put", ks, _reuse, n] =>
     -- one PUT per batch into the configured bucket, the key prefix is the key space without its leading and trailing
     -- slashes (the model's `trim`, `Props.C12.s3_key_format`), every body complete, file names carry the first LSN
